@@ -7,8 +7,16 @@ coordinate system, all stabilizer generators commute (vertex operators are trunc
 truncated by the hole), the logical operators commute with the stabilizers and anticommute with each
 other, `n` = the `n` of `Planar3DCode` minus the edges in the hole, `k = 1`, and `get_deformation`
 never returns a map (the class defines none; `deformation_names = []`).
+
+The rank clause is proved for all sizes at the operator level (`rank_family`): an explicit family
+of `n − k` generators — all vertices, all yz and xz faces, the xy faces of the layer `z = 0` and the
+xy faces of the top of the tube except one — is GF(2)-independent.  (Relations left out: one xy face
+per cube of the two end slabs `x = 1`, `x = 2Lx − 1`, and one face for the closed surface around the
+cavity.)  With `C01.rank_upper_bound` (commutation + pairing force rank ≤ n − k, every code) the
+rank is exactly `n − k`; the translation of `OpsIndep` into `Indep` on BSF rows is the operator/BSF
+bridge (`Proofs/OpComm.lean`), not repeated here.
 -/
-import PanqecVerif.Proofs.LatHollowPlanar3DCodeWF
+import PanqecVerif.Proofs.LatHollowPlanar3DCodeRank
 
 namespace Panqec.C01HollowPlanar3DCode
 open Panqec.Cubic3D Panqec.HollowPlanar3DCode
@@ -86,6 +94,23 @@ theorem n_stabilizers_formula (Lx Ly Lz : Nat) :
 /-- `k = 1` (every size). -/
 theorem k_value (Lx Ly Lz : Nat) : (lattice Lx Ly Lz).toCodeData.k = 1 := by
   simp only [Lattice.toCodeData, CodeData.k, lattice_logX]; rfl
+
+/-- The rank clause for every supported size: `rankFamily` (the stabilizer locations other than the
+    xy faces `(1, y, z)`, `(2Lx−1, y, z)`, `(3, 1, z)` with `z ≠ 0`: all vertices, all yz and xz faces,
+    the xy faces with `z = 0`, the xy faces of the top of the tube except `(3, 1, 2Lz−2)`) is a
+    sub-list of `get_stabilizer_coordinates` with exactly `n − k` members whose operators are
+    GF(2)-independent: no non-empty sub-family multiplies to the identity (even X-parity and even
+    Z-parity on every location). -/
+theorem rank_family (Lx Ly Lz : Nat) (hLx : 1 ≤ Lx) (hLy : 1 ≤ Ly) (hLz : 1 ≤ Lz) :
+    ∃ B : List Coord, B.Sublist (lattice Lx Ly Lz).stabs ∧
+      B.length = (lattice Lx Ly Lz).toCodeData.n - (lattice Lx Ly Lz).toCodeData.k ∧
+      OpsIndep (B.map (lattice Lx Ly Lz).getStab) := by
+  refine ⟨rankFamily Lx Ly Lz, ?_, ?_, ?_⟩
+  · rw [lattice_stabs]; exact rankFamily_sublist Lx Ly Lz
+  · rw [k_value]
+    simp only [Lattice.toCodeData, CodeData.n, lattice_qubits]
+    exact rankFamily_length hLx hLy hLz
+  · rw [lattice_getStab]; exact rankFamily_indep hLx hLy hLz
 
 /-- The coordinate lists are those of `Planar3DCode` with the hole
     `2 < x < 2Lx−2, 1 ≤ y < 2Ly−2, 1 ≤ z < 2Lz−2` removed, in the same order. -/
@@ -166,6 +191,17 @@ example : (lattice 4 3 3).CommPair := commPair 4 3 3 (by decide) (by decide) (by
 /-- 3×3×3: exactly one qubit, the x edge `(3, 2, 2)`, is removed from the 51 of `Planar3DCode` -/
 example : (lattice 3 3 3).toCodeData.n = 50 := n_formula 3 3 3
 example : (lattice 4 3 3).toCodeData.n = 66 := n_formula 4 3 3
+example : (rankFamily 4 3 3).length = 65 := by decide +kernel
+/-- the family really drops stabilizers: 4×3×3 has 74 generators, 9 more than `n − k` -/
+example : (stabs 4 3 3).length = 74 := by decide +kernel
+/-- `OpsIndep` is not vacuous: a family containing the same operator twice is dependent -/
+example : ¬ OpsIndep [uop [[1, 0, 0]] .X, uop [[1, 0, 0]] .X] := by
+  intro h
+  have := h _ (List.Sublist.refl _) (by
+    intro q
+    simp only [List.countP_cons, List.countP_nil, hitX_uop, hitZ_uop]
+    by_cases hq : q ∈ [[(1 : Int), 0, 0]] <;> simp [hq])
+  simp at this
 example : [3, 2, 2] ∉ qubits 3 3 3 ∧ [3, 2, 2] ∈ Planar3DCode.qubits 3 3 3 := by decide +kernel
 /-- the vertex `(2, 2, 2)` next to the hole: the edge `(3, 2, 2)` is missing, five neighbours left -/
 example : getStab 3 3 3 [2, 2, 2] =
